@@ -21,7 +21,7 @@ pub fn spec(prop: &str, quick: bool) -> Option<CheckSpec> {
             exhaustive_note: Some("every counter of the complete lifetime of shapes {[2],[5],[2,2],[2,2,2]} x w in {1,2,4,8} x 2 hashes x callback {accept, reject, crash-before, crash-after, reject-once} x aux {none, fresh, valid, corrupt} x {byte API, object API}, followed by every truncated length / over-long / bad parameter byte / out-of-range counter / wiped / all-0xff key"),
             rule: "the crossing (shape x w x hash x callback behaviour x aux kind x API) is enumerated by run index; each run visits every counter of the key's lifetime and every failing precondition; non-trivial = a fault fired and the callback automaton was evaluated afterwards; distinct = distinct (configuration, op kinds, fault set) hash; the lifecycle part adds seeded swarm shapes",
         },
-        "C02" => CheckSpec { property: "C02", level: "exploration", parts: vec![p("wire", 3500, 25000), p("handover", 40, 400)], exhaustive_note: None, rule: "2-4 keys per run (two sharing the hash, two sharing n), 1-3 releases each at random/boundary counters; every envelope delivered intact through each entry point and then with seeded transport faults (bit flips raw and per field, field overwrite, truncate/extend, cross-key/level/counter/hash splices, message/key/hash swaps, level cut/grow, raw bytes, model-made RFC-exact signatures); non-trivial = a fault changed the delivered triple and the verdict oracle ran; distinct = (shapes, fault-kind sequence) hash" },
+        "C02" => CheckSpec { property: "C02", level: "exploration", parts: vec![p("wire", 3500, 25000), p("handover", 40, 400), p("wire-total", 48, crate::gen2::wire_total_space(false))], exhaustive_note: None, rule: "2-4 keys per run (two sharing the hash, two sharing n), 1-3 releases each at random/boundary counters; every envelope delivered intact through each entry point and then with seeded transport faults (bit flips raw and per field, field overwrite, truncate/extend, cross-key/level/counter/hash splices, message/key/hash swaps, level cut/grow, raw bytes, model-made RFC-exact signatures), plus the enumerated wire-total bases (every prefix, every header value, one flipped bit in the first and last byte of every randomizer / chain value / path node / public-key byte, chains of 0..10 well-formed elements); non-trivial = a fault changed the delivered triple and the verdict oracle ran; distinct = (shapes, fault-kind sequence) hash" },
         "C06" => CheckSpec {
             property: "C06",
             level: "fault_enumeration",
